@@ -372,6 +372,10 @@ func forEachMediaRange(header []byte, functor func([]byte)) {
 						escaping = !escaping
 					}
 				}
+				if header[n] != '\\' {
+					// a backslash escapes the next character only
+					escaping = false
+				}
 				n++
 			}
 		} else {
